@@ -2,6 +2,7 @@ package harness
 
 import (
 	"fmt"
+	"runtime"
 	"sync"
 	"sync/atomic"
 	"testing"
@@ -56,22 +57,36 @@ const (
 	c10FilteredIndex
 	c10FilteredTyped
 	c10Styles
+	// point reads by key (keyed collections only): QueryKey and the existing-key branch of UpsertKey
+	c10QueryKey    = c10Styles
+	c10UpsertKey   = c10Styles + 1
+	c10StylesKeyed = c10Styles + 2
 )
 
-var c10StyleNames = [...]string{"QueryAt", "Range", "With(index).Range", "WithInt.Range"}
+var c10StyleNames = [...]string{"QueryAt", "Range", "With(index).Range", "WithInt.Range", "QueryKey", "UpsertKey(existing key)"}
+
+func c10Key(off uint32) string { return fmt.Sprintf("r%d", off) }
 
 // c10Read performs one read in the given style over the target rows.
 func c10Read(c *column.Collection, style int, rows []uint32, obs *c10Obs) {
 	switch style {
-	case c10QueryAt:
+	case c10QueryAt, c10QueryKey, c10UpsertKey:
 		for _, off := range rows {
-			c.QueryAt(off, func(r column.Row) error {
+			cb := func(r column.Row) error {
 				a, okA := r.Int("a")
 				b, okB := r.Int("b")
 				cc, okC := r.Uint64("c")
 				c10CheckRow(off, a, okA, b, okB, cc, okC, obs)
 				return nil
-			})
+			}
+			switch style {
+			case c10QueryAt:
+				c.QueryAt(off, cb)
+			case c10QueryKey:
+				c.QueryKey(c10Key(off), cb)
+			case c10UpsertKey:
+				c.UpsertKey(c10Key(off), cb)
+			}
 		}
 	default:
 		c.Query(func(txn *column.Txn) error {
@@ -92,8 +107,14 @@ func c10Read(c *column.Collection, style int, rows []uint32, obs *c10Obs) {
 	}
 }
 
-func c10Collection(blocks int) (*column.Collection, []uint32) {
+func c10Collection(blocks int) (*column.Collection, []uint32) { return c10CollectionK(blocks, false) }
+
+// c10CollectionK: with keyed, every row carries the key c10Key(offset).
+func c10CollectionK(blocks int, keyed bool) (*column.Collection, []uint32) {
 	c := column.NewCollection(column.Options{Capacity: 1024, Vacuum: 24 * 3600 * 1e9})
+	if keyed {
+		c.CreateColumn("k", column.ForKey())
+	}
 	c.CreateColumn("a", column.ForInt())
 	c.CreateColumn("b", column.ForInt())
 	c.CreateColumn("c", column.ForUint64())
@@ -103,17 +124,35 @@ func c10Collection(blocks int) (*column.Collection, []uint32) {
 	var offs []uint32
 	c.Query(func(txn *column.Txn) error {
 		for i := 0; i < n; i++ {
-			off, _ := txn.Insert(func(r column.Row) error {
+			fill := func(r column.Row) error {
 				r.SetInt("a", 0)
 				r.SetInt("b", 0)
 				r.SetUint64("c", 0)
 				r.SetInt("live", 1)
 				return nil
-			})
+			}
+			if keyed {
+				// offsets of a fresh collection are handed out in order: row i gets the key of offset i
+				if err := txn.InsertKey(c10Key(uint32(i)), fill); err != nil {
+					panic(err)
+				}
+				offs = append(offs, uint32(i))
+				continue
+			}
+			off, _ := txn.Insert(fill)
 			offs = append(offs, off)
 		}
 		return nil
 	})
+	if keyed {
+		for _, off := range []uint32{0, uint32(n - 1)} {
+			var at uint32
+			c.QueryKey(c10Key(off), func(r column.Row) error { at = r.Index(); return nil })
+			if at != off {
+				panic(fmt.Sprintf("harness: key %s is at offset %d", c10Key(off), at))
+			}
+		}
+	}
 	// keep a handful of rows per block
 	keep := map[uint32]bool{}
 	var rows []uint32
@@ -180,7 +219,11 @@ func c10Write(c *column.Collection, ops []c10WriterOp, version int, cur map[uint
 // runC10Latched: park the writer at its k-th mid-apply point (latch held) and let
 // readers run as may-block steps. Returns a violation message or "".
 func runC10Latched(blocks int, ops []c10WriterOp, parkAt int, styles []int, sameBlock bool) (msg string, parkedMid bool, readerBlocked, readerThrough int) {
-	c, rows := c10Collection(blocks)
+	keyed := false
+	for _, st := range styles {
+		keyed = keyed || st >= c10Styles
+	}
+	c, rows := c10CollectionK(blocks, keyed)
 	defer c.Close()
 	cur := map[uint32]int{}
 	for _, r := range rows {
@@ -229,7 +272,7 @@ func runC10Latched(blocks int, ops []c10WriterOp, parkAt int, styles []int, same
 		r := &rd{style: st, obs: &c10Obs{}, done: make(chan struct{})}
 		readers = append(readers, r)
 		target := rows
-		if st == c10QueryAt {
+		if st == c10QueryAt || st >= c10Styles {
 			target = nil
 			for _, off := range rows {
 				if (off>>14 == heldBlock) == sameBlock {
@@ -301,8 +344,16 @@ func TestC10Latched(t *testing.T) {
 		ops = uniq
 		parkAt := rapid.IntRange(1, 10).Draw(t, "park-at")
 		var styles []int
+		nstyles := c10Styles
+		keyedOK := true
+		for _, o := range ops {
+			keyedOK = keyedOK && o.Kind != 2 // the delete+insert writer uses the unkeyed Insert
+		}
+		if keyedOK && rapid.Bool().Draw(t, "keyed") {
+			nstyles = c10StylesKeyed
+		}
 		for n := rapid.IntRange(1, 3).Draw(t, "nreaders"); n > 0; n-- {
-			styles = append(styles, rapid.IntRange(0, c10Styles-1).Draw(t, "style"))
+			styles = append(styles, rapid.IntRange(0, nstyles-1).Draw(t, "style"))
 		}
 		same := rapid.IntRange(0, 3).Draw(t, "same-block") != 0
 		msg, parkedMid, blocked, through := runC10Latched(blocks, ops, parkAt, styles, same)
@@ -321,7 +372,10 @@ func TestC10LatchedExhaustive(t *testing.T) {
 	for blocks := 1; blocks <= 2; blocks++ {
 		for kind := 0; kind <= 2; kind++ {
 			for parkAt := 1; parkAt <= 8; parkAt++ {
-				for style := 0; style < c10Styles; style++ {
+				for style := 0; style < c10StylesKeyed; style++ {
+					if style >= c10Styles && kind == 2 {
+						continue // the delete+insert writer uses the unkeyed Insert
+					}
 					ops := []c10WriterOp{{Kind: kind, Row: 1}}
 					if blocks == 2 {
 						ops = append(ops, c10WriterOp{Kind: kind, Row: 16384 + 2})
@@ -338,7 +392,7 @@ func TestC10LatchedExhaustive(t *testing.T) {
 			}
 		}
 	}
-	SetExhaustive("C10", "1 writer x {put, merge, delete+insert} x mid-apply points 1..8 x 4 reader styles x 1..2 blocks (latch-held mode)", true)
+	SetExhaustive("C10", "1 writer x {put, merge, delete+insert} x mid-apply points 1..8 x 4 reader styles (+ QueryKey and UpsertKey point reads on a keyed collection for put/merge writers) x 1..2 blocks (latch-held mode)", true)
 	AddCounter("C10", "latched_exhaustive_cases", int64(n))
 }
 
@@ -367,18 +421,36 @@ func TestC10Parallel(t *testing.T) {
 		writers := rapid.IntRange(1, 6).Draw(t, "writers")
 		readers := rapid.IntRange(2, 10).Draw(t, "readers")
 		mergeToo := rapid.Bool().Draw(t, "merges")
-		c, rows := c10Collection(blocks)
+		keyed := rapid.Bool().Draw(t, "keyed")
+		var mu sync.Mutex
+		bad := ""
+		nstyles := c10Styles
+		if keyed {
+			nstyles = c10StylesKeyed
+		}
+		c, rows := c10CollectionK(blocks, keyed)
 		defer c.Close()
+		// a library panic in a worker is reported (it may also leave a latch locked: see the watchdog below)
+		crashed := func(who string) {
+			if p := recover(); p != nil {
+				buf := make([]byte, 1<<12)
+				buf = buf[:runtime.Stack(buf, false)]
+				mu.Lock()
+				if bad == "" {
+					bad = fmt.Sprintf("%s panicked: %v\n%s", who, p, trimStack(string(buf)))
+				}
+				mu.Unlock()
+			}
+		}
 		var version int64
 		stop := make(chan struct{})
 		var wg sync.WaitGroup
-		var mu sync.Mutex
-		bad := ""
 		var rowLocks [12]sync.Mutex // writers serialise per row so that merges keep the invariant
 		for w := 0; w < writers; w++ {
 			wg.Add(1)
 			go func(w int) {
 				defer wg.Done()
+				defer crashed("a writer")
 				i := 0
 				for {
 					select {
@@ -422,6 +494,7 @@ func TestC10Parallel(t *testing.T) {
 			wg.Add(1)
 			go func(rd int) {
 				defer wg.Done()
+				defer crashed("a " + c10StyleNames[rd%nstyles] + " reader")
 				obs := &c10Obs{Versions: map[uint32]map[int]bool{}}
 				for {
 					select {
@@ -434,11 +507,11 @@ func TestC10Parallel(t *testing.T) {
 						return
 					default:
 					}
-					c10Read(c, rd%c10Styles, rows, obs)
+					c10Read(c, rd%nstyles, rows, obs)
 					if obs.Bad != "" {
 						mu.Lock()
 						if bad == "" {
-							bad = c10StyleNames[rd%c10Styles] + " reader: " + obs.Bad
+							bad = c10StyleNames[rd%nstyles] + " reader: " + obs.Bad
 						}
 						mu.Unlock()
 						return
@@ -448,11 +521,20 @@ func TestC10Parallel(t *testing.T) {
 		}
 		time.Sleep(time.Duration(seconds) * time.Second / 4)
 		close(stop)
-		wg.Wait()
+		finished := make(chan struct{})
+		go func() { wg.Wait(); close(finished) }()
+		select {
+		case <-finished:
+		case <-time.After(30 * time.Second):
+			mu.Lock()
+			msg := bad
+			mu.Unlock()
+			t.Fatalf("C10 violated (free-parallel run, %d writers, %d readers, %d blocks): the workers did not finish within 30 s after the stop signal (deadlock, or a worker died holding a latch) %s", writers, readers, blocks, msg)
+		}
 		if bad != "" {
 			t.Fatalf("C10 violated (free-parallel run, %d writers, %d readers, %d blocks): %s", writers, readers, blocks, bad)
 		}
-		RecordCase("C10", fmt.Sprintf("free-parallel writers=%d readers=%d blocks=%d merges=%v versions-seen=%d", writers, readers, blocks, mergeToo, maxVersions),
+		RecordCase("C10", fmt.Sprintf("free-parallel writers=%d readers=%d blocks=%d merges=%v keyed=%v versions-seen=%d", writers, readers, blocks, mergeToo, keyed, maxVersions),
 			maxVersions >= 3, "free-parallel")
 	})
 }
